@@ -13,6 +13,7 @@ def check(A):
     R.jsonp_rule(A, 'C19')
     R.constructor_rules(A, 'C19', fresh_rule='C19')
     R.driver_response_rules(A, 'C19')
+    R.asgi_rules(A, 'C19', response_only=True)
     for fl in FLAVOURS:
         # the JSONP index of the handshake request reaches _ok together with the cookie header
         R.handle_connect_rules(A, fl, 'C19')
